@@ -122,6 +122,7 @@ pub fn run_session(mut src: Source, supported: Arc<BTreeSet<String>>, properties
     let op: Op = match &mut src {
       Source::Explicit(ops) => { if i >= ops.len() { break; } ops[i].clone() }
       Source::Generate { rng, knobs } => {
+        if i == 0 { set_functions(knobs.functions); if knobs.functions { i += 1; ops_done.push(Op::Raw { text: PRELUDE.to_string() }); let _ = &rng; let t = parse_cached(PRELUDE); if let Ok(t) = t { let o = node.interpret(&t); log.push(format!("#0 [function prelude] => {}", o.show())); if !o.is_ok() { bump(&mut stats.reach, "prelude-rejected"); } } continue; } }
         if i >= knobs.len { break; }
         if let Some(rb) = pending_readback.take() { if rng.chance(2, 3) { rb } else { next_op(rng, knobs, &model) } } else { next_op(rng, knobs, &model) }
       }
